@@ -678,7 +678,7 @@ Proof.
   cbn [map psums tl concat].
   destruct (psums_head (lenN p + lenN x) (map lenN d)) as (t & Et).
   rewrite Et. cbn [combine map_opt]. rewrite slice_mid.
-  specialize (IH (p ++ x)). rewrite lenN_app, Et, <- app_assoc in IH. cbn [tl] in IH.
+  specialize (IH (p ++ x)). rewrite lenN_app, Et, <- app_assoc in IH. cbn [tl combine] in IH.
   now rewrite IH.
 Qed.
 
@@ -701,7 +701,7 @@ Proof.
   assert (Hs : s < 2) by (unfold s; destruct (sortedb d); lia).
   replace (1 + 16 * s + 64 * osc) with (1 + 16 * (s + 4 * osc)) by lia.
   unfold decode_metadata.
-  rewrite b16_mod by lia. cbn [N.eqb negb].
+  rewrite b16_mod by lia. rewrite N.eqb_refl. cbn [negb].
   change 64 with (16 * 4). rewrite <- N.div_div by discriminate.
   rewrite b16_div by lia.
   assert (E2 : (s + 4 * osc) mod 2 = s).
@@ -728,8 +728,8 @@ Proof.
   unfold encodable, encode. destruct (enc_st [] v) as [d b] eqn:E.
   intros Hw (Hb & Hn & Ht) Hm. inversion Hm; subst.
   unfold decode. rewrite decode_encode_metadata by assumption.
-  destruct (enc_st_good v Hw [] d b (NoDup_nil _) E Hb Hn) as (_ & _ & _ & Hok).
-  unfold decode_value. rewrite <- (app_nil_r b) at 2. apply Hok; [apply ext_refl|lia].
+  destruct (enc_st_good v Hw [] d val (NoDup_nil _) E Hb Hn) as (_ & _ & _ & Hok).
+  unfold decode_value. rewrite <- (app_nil_r val) at 2. apply Hok; [apply ext_refl|lia].
 Qed.
 
 (* a value whose objects list their fields in name order is returned unchanged *)
@@ -767,4 +767,4 @@ Qed.
 
 Corollary decode_encode_sorted v meta val :
   wf v -> key_sorted v -> encodable v -> encode v = (meta, val) -> decode meta val = Some v.
-Proof. intros Hw Hk He E. rewrite <- (canon_key_sorted v Hk) at 2. now apply decode_encode. Qed.
+Proof. intros Hw Hk He E. rewrite <- (canon_key_sorted v Hk). now apply decode_encode. Qed.
